@@ -13,8 +13,16 @@ CC      := clang
 CXX     := clang++
 GUARD   := -DFT_UFW_VERIF
 
+ifeq ($(PLAIN),1)
+# plain build for valgrind (./check selftest valgrind): no sanitizers, no pattern initialisation of locals
+SAN     :=
+INITPAT :=
+DWARF   := -gdwarf-4
+else
 SAN     := -fsanitize=address,undefined -fno-sanitize-recover=null,bounds,object-size,pointer-overflow -fno-omit-frame-pointer
-COMMON  := -O1 -g $(SAN) -ftrivial-auto-var-init=pattern $(GUARD) -DSYSTEM_ENDIANNESS_LITTLE -DUFW_USE_BUILTIN_SWAP -D_DEFAULT_SOURCE
+INITPAT := -ftrivial-auto-var-init=pattern
+endif
+COMMON  := -O1 -g $(DWARF) $(SAN) $(INITPAT) $(GUARD) -DSYSTEM_ENDIANNESS_LITTLE -DUFW_USE_BUILTIN_SWAP -D_DEFAULT_SOURCE
 INC     := -I$(BUILD)/cfg/include -I$(UFW_SRC)/include
 CFLAGS  := -std=gnu99 $(COMMON) $(INC) -Wall -Wextra -Wno-unused-parameter
 # ufw/compat/ssize-t.h has an unbalanced extern "C" brace under C++ when sys/types.h exists: bypass it
